@@ -323,3 +323,32 @@ def run(repo: Repo, rep: Report, tier: str) -> None:
     rep.rule("none-not-falsy", "Message IDs and Status are tested with `is None`: Message ID 0 and Status 0x0000 are legal")
     zero_legal_truthiness(repo, rep, "none-not-falsy", {"MessageID", "MessageIDBeingRespondedTo", "Status"})
 
+    rep.rule("peer-status-guarded", "every lookup of a peer-chosen status in a service-class status table is inside a try that covers KeyError")
+    rep.floor("peer-status lookups", check_peer_status_lookup(repo, rep), 2)
+    from .c26 import check_wrap_handler_uses
+    rep.rule("handler-iterable", "_wrap_handler only iterates what the handler returned, inside its guarded try (C26's rule): nothing it does with the object can raise past the SCP")
+    check_wrap_handler_uses(repo, rep, "handler-iterable")
+
+def check_peer_status_lookup(repo, rep, rule: str = "peer-status-guarded") -> int:
+    """A status a peer (the C-STORE sub-operation's SCP, or this AE's own requestor) answered with is looked
+    up in a status table. The peer chooses the value: the lookup must expect a miss - a try whose handlers
+    cover KeyError. Otherwise a status outside the table (0xD000, 0x0001 ...) raises out of the SCP, the
+    association is aborted and the request never gets its final response."""
+    sc = repo.mod("service_class")
+    n = 0
+    for x in ast.walk(sc.tree):
+        if not (isinstance(x, ast.Subscript) and isinstance(x.ctx, ast.Load) and norm(x.value).endswith("_SERVICE_CLASS_STATUS") and not isinstance(x.slice, ast.Constant)):
+            continue
+        n += 1
+        fq = f"service_class.{qualname(x)}"
+        ok = False
+        t = enclosing(x, (ast.Try,))
+        while t is not None and not ok:
+            if any(x in list(ast.walk(s_)) for s_ in t.body):
+                for h in t.handlers:
+                    names = [] if h.type is None else [norm(e) for e in h.type.elts] if isinstance(h.type, ast.Tuple) else [norm(h.type)]
+                    if h.type is None or any(k in names for k in ("KeyError", "LookupError", "Exception", "BaseException")):
+                        ok = True
+            t = enclosing(t, (ast.Try,))
+        rep.check(ok, rule, fq, enclosing(x, (ast.stmt,)) or x, f"`{norm(x)}` looks a status the peer chose up in the table without a handler for the miss: a sub-operation answered with a status outside the Storage table raises KeyError out of the SCP, pynetdicom aborts, and the C-GET / C-MOVE request is left without its final response", mod=sc, node=x)
+    return n
